@@ -4,7 +4,7 @@ B         := build
 CXX_RT    := g++
 CXX_W     := clang++
 REPO_HDRS := $(wildcard $(REPO)/Include/*.hpp)
-W_HDRS    := $(wildcard worlds/*.hpp) sim/rt.hpp
+W_HDRS    := $(wildcard worlds/*.hpp) $(wildcard worlds/*.inc) sim/rt.hpp
 RT_SRCS   := sim/rt_core.cpp sim/rt_main.cpp sim/rt_plan.cpp sim/rt_sym.cpp
 SAN_RT_SRCS := sim/rt_san.cpp sim/rt_main.cpp sim/rt_plan.cpp sim/rt_sym.cpp
 W_SRCS    := $(wildcard worlds/*_world.cpp)
